@@ -714,7 +714,13 @@ func (c *stubCoalescer) enter(ctx context.Context) error {
 	w.mu.Unlock()
 	var err error
 	if skip {
-		err = context.Canceled // cancelled by the errgroup after an earlier coalescer failed
+		// cancelled by the errgroup after an earlier coalescer failed: return only
+		// once the group has recorded that error (it cancels the context right after)
+		select {
+		case <-ctx.Done():
+		case <-time.After(20 * time.Second):
+		}
+		err = context.Canceled
 	} else {
 		err, _ = w.enter(cctx, 'C')
 		if err != nil {
